@@ -43,7 +43,7 @@ def run(pid, lean_module, theorems, scenarios, rule, tier, seed, level="proof", 
     if mod_ok and theorems: axioms, _ = core.lean_axioms(lean_module, theorems)
     for t in theorems:
         ax = axioms.get(t)
-        obligations.append((t, bool(mod_ok and ax is not None and set(ax) <= core.ALLOWED_AXIOMS), f"axioms {ax}" if mod_ok else "module does not compile"))
+        obligations.append((t, bool(mod_ok and ax is not None and set(ax) <= core.ALLOWED_AXIOMS), f"axioms {ax}" if mod_ok else "module does not compile: " + "; ".join(build.get("lake_errors", [])[:3])))
     hits = core.grep_forbidden(core.lean_files("Props") + core.lean_files("Proofs") + core.lean_files("Model"))
     obligations.append(("no sorry/admit/axiom/native_decide", not hits, "; ".join(hits[:5])))
     known = [k for k in core.load_known() if k["property"] == pid]
@@ -67,7 +67,9 @@ def run(pid, lean_module, theorems, scenarios, rule, tier, seed, level="proof", 
         finally:
             net.close()
     results = []
-    if mod_ok and os.path.exists(core.MODEL):
+    # the executable model needs the Model / Gen / Driver modules only: a property theorem that no longer checks does not stop the search
+    driver_ok = not any(m.startswith("Driver") or m.startswith("NunVerif.Model") or m.startswith("NunVerif.Gen") or m == "nunmodel" for m in build.get("failed_modules", []))
+    if driver_ok and os.path.exists(core.MODEL):
         with ThreadPoolExecutor(max_workers=max(2, core.JOBS // 2)) as ex:
             results = list(ex.map(one, enumerate(scenarios)))
     else:
